@@ -9,6 +9,8 @@ here = os.path.dirname(os.path.dirname(os.path.abspath(__file__)))
 def main():
     for src in sorted(glob.glob(os.path.join(here, 'tools', 'variants_src', 'C*.py'))):
         pid = os.path.basename(src)[:-3]
+        if len(sys.argv) > 1 and pid not in sys.argv[1:]:
+            continue
         spec = importlib.util.spec_from_file_location(pid, src)
         mod = importlib.util.module_from_spec(spec)
         spec.loader.exec_module(mod)
